@@ -349,6 +349,21 @@ def extract(work, modules, macos=False, big_arena=False, contracts=None, extra_f
         wr(rel, t)
         log.append({"rule": "T8", "file": rel, "tokens_renamed": n, "selected": arch})
 
+    # T9: run-time CPU feature tests (`is_x86_feature_detected!("..")`, `is_aarch64_feature_detected!`) execute cpuid,
+    # which Kani cannot follow; the properties must hold on every CPU, so each test becomes a nondeterministic
+    # boolean (verif_rt::any_cpu_feature). Nothing to do on a tree without such tests.
+    cpu_re = re.compile(r"(?:(?:std|core)::)?(?:arch::)?is_(?:x86|aarch64|arm)_feature_detected!\s*\(\s*\"[^\"]*\"\s*\)")
+    for root, _dirs, files in os.walk(src):
+        for fn_ in files:
+            if not fn_.endswith(".rs"):
+                continue
+            rel = os.path.relpath(os.path.join(root, fn_), src)
+            t = rd(rel)
+            t2, n = cpu_re.subn("crate::verif_rt::any_cpu_feature()", t)
+            if n:
+                wr(rel, t2)
+                log.append({"rule": "T9", "file": rel, "cpu_feature_tests_made_nondeterministic": n})
+
     # T3 (before T4 so that anchors are found in pristine text)
     for c in contracts or []:
         t = rd(c["file"])
